@@ -23,7 +23,11 @@ func main() {
 	case "race":
 		os.Exit(cmdRace(8))
 	case "run":
-		os.Exit(cmdRun(10 * time.Second))
+		wd := 10 * time.Second
+		if v, err := strconv.Atoi(os.Getenv("VERIF_WATCHDOG_S")); err == nil && v > 0 {
+			wd = time.Duration(v) * time.Second // ./check re-runs a timed-out case alone with a long watchdog
+		}
+		os.Exit(cmdRun(wd))
 	default:
 		fmt.Println("unknown command", os.Args[1])
 		os.Exit(2)
